@@ -156,11 +156,15 @@ static int upipe_row_join_control(struct upipe *upipe, int command,
 
 static void upipe_row_join_free(struct upipe *upipe)
 {
+    struct upipe_row_join *ctx = upipe_row_join_from_upipe(upipe);
+    /* the picture being assembled */
+    uref_free(ctx->output_uref);
+    /* may log about the buffers still held */
+    upipe_row_join_clean_input(upipe);
     upipe_throw_dead(upipe);
     upipe_row_join_clean_ubuf_mgr(upipe);
     upipe_row_join_clean_urefcount(upipe);
     upipe_row_join_clean_output(upipe);
-    upipe_row_join_clean_input(upipe);
     upipe_row_join_free_void(upipe);
 }
 
